@@ -155,7 +155,7 @@ func H_C16_args() {
 // alone; elsewhere it is replaced by the quoted argument.
 func H_C16_template() {
 	maxLen := 4 + verif.Tier()
-	t := verif.Str("t", maxLen, "$1'\"`-/*#\n a\\")
+	t := verif.Str("t", maxLen, "$1'\"`-/*#\n e\\") // the letter is e: e'...' is an escape string for the sanitizer's lexer
 	tpl := "SELECT " + t + " FROM x"
 	out, err := SanitizeSQL(tpl, "Z")
 	class, _, start, end, _ := verif.MySQLScan(tpl)
